@@ -415,6 +415,39 @@ Theorem law_holds_on_histories_with_mapped_traits :
 Proof. exact plain_then_mapped_life_spec. Qed.
 Print Assumptions law_holds_on_histories_with_mapped_traits.
 
+(* third form: plain phases ([SPlain ops], clean) and complete lives of mapped instance traits
+   ([SMap n m d ops] = add_trait(n, Map(m, d)); get/set/del on n, n_; remove_trait(n)) alternate in
+   any number and order, possibly followed by one more life that is not finished; [segs_ok] is the
+   boolean hypothesis (each plain phase clean in the state it starts from, each default a key,
+   each life touching only its own two names) *)
+Theorem law_holds_on_alternating_plain_and_mapped_phases :
+  forall (h : list classdef) (c : nat) (gs : list seg) (i : Z),
+    plain_class h c = true ->
+    let t := class_tables h c in
+    segs_ok (snd t) (init_state (fst t)) gs = true ->
+    law_hist (spec_rule h c) i l_init (run (snd t) (init_state (fst t)) (flat_map seg_ops gs)) = [] /\
+    forall n m d wd ops, zassoc d m = Some wd -> forallb (pair_op n) ops = true ->
+      law_hist (spec_rule h c) i l_init
+               (run (snd t) (init_state (fst t)) (flat_map seg_ops gs ++ OAdd n (PMap m d) :: ops)) = [].
+Proof. exact law_alternating. Qed.
+Print Assumptions law_holds_on_alternating_plain_and_mapped_phases.
+
+(* the step behind it: after remove_trait the object satisfies the plain-trait invariant again *)
+Theorem plain_invariant_holds_again_after_remove_trait :
+  forall ct pt n m d s0 ls0 s ls, Inv ct pt s0 ls0 -> During n m d s0 s -> Agree s ls ->
+    Inv ct pt (fst (step pt s (ORem n))) (law_next (model_rule ct pt) ls (ORem n) (snd (step pt s (ORem n)))).
+Proof. exact Inv_after_life. Qed.
+Print Assumptions plain_invariant_holds_again_after_remove_trait.
+
+Example alternating_phases_nontrivial :
+  let t := class_tables [mkClass [([97; 95], PTyped VInt 7)] [1%nat]] 3 in
+  segs_ok (snd t) (init_state (fst t))
+    [ SPlain [OSet [97; 98; 95] 5; OAdd [98] (PAny 5); OSet [98] 6];
+      SMap [97; 98] [(1, 11); (2, 12)] 1 [OGet [97; 98; 95]; OSet [97; 98] 2; OGet [97; 98; 95]; OSet [97; 98] 5];
+      SPlain [OGet [97; 98; 95]; OSet [97; 98; 95] 3; OGet [98]; ORem [98]; OGet [98]];
+      SMap [98] [(2, 3); (6, 5)] 6 [OGet [98; 95]; ODel [98]; OSet [98; 95] 9; OGet [98]] ] = true.
+Proof. vm_compute. reflexivity. Qed.
+
 (* Non-vacuity of the second main theorem: strict class with a wildcard covering ab_; a plain
    prefix; add_trait("ab", Map({1: 11, 2: 12})); reads, assignments (valid, invalid, to the shadow),
    deletes; remove_trait *)
